@@ -381,6 +381,9 @@ def make_files(pvl, tmp, rng, tier, part, nparts):
         else:
             text = gt.render(toks, gt.gen_layout(rng, toks, reader, "lines"))
         if kind == "trailing-binary":
+            if reader == "default" and rng.random() < 0.5:
+                # characters that str.splitlines() takes for line boundaries
+                text = 'note3 = "one\x1ctwo\x1dthree\x1efour"\nw\x1cx = y\x1ez\n' + text
             text = text.rstrip() + "\nEND\n"
             data = text.encode("utf-8") + bytes(rng.randrange(256) for _ in range(300))
         if kind == "non-ascii":
